@@ -16,3 +16,14 @@ package hydra
 //@   modifies *
 //@   nogo[event_delivered_in_the_writers_goroutine]
 //@   ensures[every_subscriber_is_visited] cont
+
+// ---------------------------------------------------------------------------------------
+// Property C18 (at most one live in-memory instance per swamp). Registry discipline, per function:
+// the registry of live instances (h.swamps) loses an entry only through the close callback of that
+// instance -- exactly one Delete per callback, and no other registry is touched there; a summoner never
+// removes an instance from the registry, and touches the table of summoning slots (h.summoningSwamps) at
+// most once, in its deferred clean-up.
+//@ func (*hydra).closeEventCallbackFunction(h, n)
+//@   property C18
+//@   modifies *
+//@   ensures[only_the_closed_instance_is_unregistered] calls("Map.Delete") == old(calls("Map.Delete")) + 1 && calls("Map.Store") == old(calls("Map.Store")) && calls("Map.LoadOrStore") == old(calls("Map.LoadOrStore"))
